@@ -11,7 +11,8 @@ EXPLANATION = (
     "the loop and forgotten only there; SyncSender<Task> values are stored only in ThreadPool.threads, never cloned, "
     "forgotten or leaked, and ThreadPool has no Drop impl - so dropping the pool closes every channel and every worker "
     "leaves its loop. R07.4 while the `threads` mutex guard is live no blocking callee other than the rendezvous sends "
-    "is called. Necessary, not sufficient: liveness over all schedules is not decided.")
+    "is called. Necessary, not sufficient: liveness over all schedules is not decided."
+    ' R07.5 the wake-up targets the caller of this broadcast: the shared block carries exactly one Thread handle, initialised with thread::current() by the constructor that the broadcasting thread itself calls, and every unpark in the worker is applied to (a clone of) that field of the task just received and to nothing else.')
 NOT_DECIDED = ["absence of deadlock / lost wake-up over all schedules and histories (liveness over interleavings; model-checking family)"]
 TRUSTED = ["park/unpark token semantics; a rendezvous send returns once the receiver took the value"]
 
